@@ -162,6 +162,8 @@ ToAvro(sv, s0, env) ==
     [] c = "bytes" ->
          IF s.k = "bytes" THEN [t |-> "bytes", b |-> sv.b]
          ELSE IF s.k = "fixed" THEN (IF Len(sv.b) = s.size THEN [t |-> "fixed", b |-> sv.b] ELSE Undef)
+         ELSE IF s.k = "uuid" /\ s.base \in {"fixed", "bytes"}      \* the 16 bytes of a uuid::Uuid
+         THEN (IF Len(sv.b) = 16 THEN [t |-> "uuid", b |-> sv.b] ELSE Undef)
          ELSE IF U THEN      \* the first branch that is bytes or a fixed of that size
            LET bi == KindIdx(s, env, {"bytes"})  fi == FixedIdx(s, env, Len(sv.b)) IN
            InBranch(sv, s, env, IF bi = 0 THEN fi ELSE IF fi = 0 THEN bi ELSE IF bi < fi THEN bi ELSE fi)
@@ -217,7 +219,8 @@ ToAvro(sv, s0, env) ==
          ELSE IF Len(sv.items) = 0
          THEN (IF s.k = "null" THEN [t |-> "null"]
                ELSE IF U THEN InBranch(sv, s, env, KindIdx(s, env, {"null"})) ELSE Undef)
-         ELSE IF s.k = "record" THEN (IF HasAttr(s, "tuple") THEN RecordOfSeq(sv.items, s, env) ELSE Undef)
+         \* (the attribute org.apache.avro.rust.tuple only matters to a self-describing read, see AnyTerm)
+         ELSE IF s.k = "record" THEN RecordOfSeq(sv.items, s, env)
          ELSE IF U THEN InBranch(sv, s, env, RecordNIdx(s, env, Len(sv.items))) ELSE Undef
     [] c = "tuple_struct" ->
          IF s.k = "record" THEN (IF Short(s) = sv.name THEN RecordOfSeq(sv.items, s, env) ELSE Undef)
